@@ -443,8 +443,8 @@ fn gen_obs(rng: &mut Rng, info: &Info, elems: &[V], uniq: usize) -> Obs {
             10 | 11 | 12 | 13 => {
                 let lo = if rng.chance(1, 5) { None } else { Some(if finite_ok { bound(rng) } else { nonneg(rng) }) };
                 let hi = if rng.chance(1, 5) { None } else { Some(if finite_ok { bound(rng) } else { nonneg(rng) }) };
-                if hi.is_none() && !(info.len_override || finite_ok) {
-                    continue; // the result would be a stream whose len() iterates forever
+                if hi.is_none() && (!(info.len_override || finite_ok) || info.huge) {
+                    continue; // the result would be a stream whose len() / force() iterates forever
                 }
                 if rng.chance(1, 15) {
                     let bad = *rng.pick(&["1.5", "\"a\"", "2^64", "1.0"]);
@@ -491,7 +491,7 @@ fn gen_obs(rng: &mut Rng, info: &Info, elems: &[V], uniq: usize) -> Obs {
                 };
                 return Obs { src: format!("({}) in s", x.src()), tok: format!("in {}", x.tok()), kind: "in" };
             }
-            16 if can_len => {
+            16 if can_len && !info.huge => {
                 let k = if info.finite { (l + rng.range(-1, 1)).max(2) } else { 2 } as usize;
                 if k > 8 && !rng.chance(1, 4) {
                     continue;
@@ -1092,6 +1092,7 @@ fn main() {
 
     let mut unspecified = 0u64;
     let mut skipped = 0u64;
+    let mut per_key: HashMap<String, u64> = HashMap::new();
     for (ri, (ci, oi)) in meta.iter().enumerate() {
         let c = &cases[*ci];
         let o = &c.obs[*oi];
@@ -1129,7 +1130,12 @@ fn main() {
         }
         // history: everything observed on this variable before this observation
         let input = if rust != parts[1] || rust != parts[0] {
-            let alone = eval_alone(&exe, &c.expr.src(), &o.src);
+            let n = per_key.entry(key.clone()).or_insert(0);
+            *n += 1;
+            if *n > 6 {
+                continue; // enough examples of this class; the count goes to the notes
+            }
+            let alone = if *n <= 3 { eval_alone(&exe, &c.expr.src(), &o.src) } else { rust.clone() };
             if alone == rust {
                 format!("{}\nrequest: {}", src_full, requests[ri])
             } else {
@@ -1145,6 +1151,11 @@ fn main() {
         rep.judge(&key, &input, &rust, parts[0], parts[1]);
     }
     rep.notes.extend(notes);
+    for (k, n) in per_key.iter() {
+        if *n > 6 {
+            rep.notes.push(format!("disagreements of class {}: {} (6 recorded)", k, n));
+        }
+    }
     rep.notes.push(format!("cases (stream variables): {}", cases.len()));
     rep.notes.push(format!("observations where the property is silent (negative positions / reversal of infinite streams, progressions longer than 10^7): {} (compared with the Impl model only)", unspecified));
     if skipped > 0 {
